@@ -10,6 +10,142 @@ TECH = ("contract-based deductive verification: own VC generator (txvc) symbolic
 
 # pid -> (level text, level note, design ref, technique suffix)
 CLAIMED = {
+    "C23": (
+        "Exception-type contracts (wd=True: every partial primitive forks its implicit exception; "
+        "allowed_exc=['TextXError']: anything else leaving the function is a failed WD obligation) on the visitor "
+        "methods where foreign exceptions were found: visit_re_match (an invalid user regex - re.compile raising any "
+        "Exception - ends in a TextXSyntaxError created in the handler; before the repair the handler itself raised "
+        "TypeError), the per-parameter body of visit_rule_params (a bare ws flag; unknown names; split values), and "
+        "visit_str_match for exceptions raised by a dependency (decode_escapes raising UnicodeDecodeError now ends in a "
+        "TextXSyntaxError). Preconditions are the node shapes the grammar of lang.py guarantees and the is_valid() of "
+        "the visitor. NOT decided deductively: the other visitor methods, the second-pass functions, and termination of "
+        "_resolve_rule / _determine_rule_type on cyclic references (RecursionError) - a bounded battery feeds a corpus "
+        "of 56 invalid or odd grammars (invalid regexes, bad parameters, bad escapes, reference cycles, undefined "
+        "rules, misplaced operators) to metamodel_from_str and reports every exception that is not a TextXError "
+        "(the documented import-in-a-string AssertionError excepted); reported separately, never counted as proved.",
+        "Partial claim: three of roughly twenty-five visitor / second-pass functions are under an exception-type "
+        "contract. Five genuine defects were repaired by five fix: commits (known_findings.json): invalid regex, bare "
+        "ws flag, invalid escape (obligations) and reference cycles, `Rule#` (battery).",
+        "DESIGN.md 5/C23, 11.9", "bounded corpus battery for the functions not under contract"),
+    "C04": (
+        "Decided on the REAL processor lambdas extracted by AST from TextXMetaModel.__init__ on every run. STRING: the "
+        "lambda is checked to have the shape x[1:-1].replace(A, B) if x[0] == Q else x[1:-1].replace(C, D); for each "
+        "quote q the composition of the statement's escaping s -> s.replace(q, backslash + q) with the lambda's replace is "
+        "proved to be the identity on ALL strings by exhaustive exploration of the composed streaming transducer over the "
+        "alphabet classes {double quote, single quote, backslash, any other character} (FST back end, complete; the "
+        "pre-repair processor that unescaped both quotes is refuted with the string backslash-quote). BOOL: the real "
+        "lambda evaluated on every spelling of the BOOL regex (FIN, complete). INT / FLOAT / STRICTFLOAT: the lambdas "
+        "are int(x) / float(x) (shape), whose round trip is CPython's. NOT proved: which text the base-type regexes "
+        "delimit (re's backtracking order) - a bounded battery parses every string up to length 3 (thorough: 4) over 8 "
+        "symbols as STRING literals in both quotes with further strings following, and 32 numeric / boolean literals "
+        "through INT, NUMBER, FLOAT, STRICTFLOAT, BOOL; reported separately, never counted as proved.",
+        "Back ends FST and FIN instead of the VC generator (DESIGN.md 2.6). A-REPLACE (the streaming transducer "
+        "computes str.replace) is cross-checked against CPython on every run (all strings up to length 5 over the "
+        "classes). If the lambda no longer has the replace shape the FST does not apply and a bounded native search "
+        "(all strings up to length 5 over 5 symbols) decides instead.",
+        "DESIGN.md 2.6, 5/C04, 11.9", "FST transducer exploration + FIN enumeration on the extracted lambdas; bounded battery for regex extents"),
+    "C22": (
+        "Proved (the /repo side): visit_rule_param turns `name` into (name, True), `noname` into (name, False) and "
+        "`name=value` into (name, value); per parameter visit_rule_params accepts only skipws / ws / split (a "
+        "TextXSyntaxError otherwise), records the value under its name leaving the others alone, and decodes a ws value "
+        "written with escapes to exactly the characters newline, carriage return, tab and space it mentions; the statement "
+        "of visit_textx_rule that places the parameters: a body that is a single match or a single rule reference is "
+        "wrapped in Sequence(nodes=[body], rule_name=rule, root=True, **params), otherwise the body itself becomes the "
+        "root expression and receives every parameter (loop invariant over the parameter dict), a bare reference "
+        "without parameters is left for the second pass; visit_textx_model creates the model parser with the "
+        "metamodel's skipws / ws (contracts/c20.py). Skipping itself is Arpeggio's (assumed); a bounded battery "
+        "(insertion of active whitespace and comments at every token boundary, inactive characters, modifiers on a "
+        "sequence, a single match and a single reference, global skipws/ws) is reported separately.",
+        "Partial claim: insertion-invariance is Arpeggio's parser loop (T-ARP). The Comment rule wiring "
+        "(comments_model = metamodel['Comment']._tx_peg_rule) is exercised by the battery only. A bare `[ws]` flag "
+        "(value True) is outside the precondition of the per-parameter unit (that input raises TypeError: C23).",
+        "DESIGN.md 5/C22, 11.8", "bounded battery with the real parser for the assumed skipping semantics"),
+    "C31": (
+        "Proved over a ghost file system (only open(name,'w'), os.replace(tmp, name) and os.remove(name) touch a final "
+        "name; every such call, every write and the closing of a file may fail - the engine forks the exceptional "
+        "outcome at each): export._atomic_write (a @contextmanager; `yield` is the caller's with-body, `with f:` ends in "
+        "a close that may fail): the final name is touched by exactly one call, os.replace(temporary, final), made only "
+        "after the body AND the closing of the temporary file have completed; on every failing path os.replace was not "
+        "called (or was itself the failing call), the temporary file - a new file in the target directory - is removed, "
+        "and the original error is raised; metamodel_export / model_export write only through _atomic_write; "
+        "gen_file: the callback runs iff overwrite or the output is missing; when it fails the output's signature is "
+        "taken again and an output that the callback created or modified is removed, an untouched one kept, and the "
+        "callback's error is raised. A bounded battery injects a failure after 0/1/3/8 writes and at the closing flush "
+        "into the real exports, with and without an earlier complete output (reported separately).",
+        "os.replace is atomic on one file system (POSIX rename, T-PY). contextlib.contextmanager semantics assumed. A "
+        "user generator that writes by other means than the gen_file callback / the exports is outside the statement. "
+        "Before the fix commit abbdd54 the exports opened the final name first (partial files of 0/219/334 bytes).",
+        "DESIGN.md 5/C31, 11.9", "bounded fault-injection battery"),
+    "C08": (
+        "Proved: (1) process_node appends exactly one cross-reference per element of a reference list, in child "
+        "order, each located at its own text, earlier entries staying in place (per-element step contract); (2) the "
+        "statement of resolve_one_step that stores a resolved target (a region unit of its own, with FRAME): the "
+        "resolver keeps per (object, list attribute) the sorted input positions of the references already resolved "
+        "into the list; for EVERY state of that bookkeeping - i.e. every order in which a provider lets the references "
+        "resolve, including postponement - the target is inserted at the place its reference's position has among "
+        "them (everything before has a position <= it, everything after a greater one), the positions stay sorted "
+        "ints not longer than the list, elements before the insertion point keep their place, nothing but the "
+        "attribute / list and the bookkeeping changes; (3) the loop body of resolve_one_step uses that statement by "
+        "contract for every provider behaviour: a postponed reference stores nothing, a resolved one is inserted "
+        "exactly once. A bounded battery runs every postponement schedule of a small model end to end (reported "
+        "separately, never counted as proved).",
+        "The induction over resolution steps (invariant: recorded positions sorted, not longer than the list) is the "
+        "modular structure, not one solver obligation. Providers are assumed not to modify the list being filled or "
+        "the bookkeeping; bisect.bisect_right's postcondition on sorted int lists is an engine primitive (T-PY). "
+        "Before the fix commit 85e4752 the list was appended to (49 of 51 schedules wrong).",
+        "DESIGN.md 5/C08, 11.8", "bounded battery of postponement schedules with the real loader"),
+    "C13": (
+        "Proved: call_obj_processors against its own recursive contract, for every metamodel and processor behaviour: "
+        "match rules call nothing; at most two processor calls per object, both with the object itself, the own rule's "
+        "processor FIRST (its _type is the class registered under the object's _tx_fqn) and the grammar rule's second; "
+        "the result is the own processor's value when it is not None - a falsy value such as 0 is a replacement like "
+        "any other - else the grammar processor's; per containment attribute / list element (two region units): one "
+        "recursive call with the attribute's class as grammar rule, a non-None result replaces the attribute / the "
+        "element, None leaves it, non-containment attributes are not entered. Main-model phase: object processors "
+        "start only when the last resolution round left nothing postponed and EVERY model of the load has ended "
+        "construction (CALL obligation at the processors call, carried by two loop invariants over the "
+        "under-construction marker) - processors see a fully linked model with all user __init__ done. A bounded "
+        "battery (call log on a grammar with abstract and common rules, multi-file order of __init__ vs processors) is "
+        "reported separately.",
+        "'Exactly once per object' = one recursive call per contained child + at most one call per processor per "
+        "activation; that every object is reached exactly once is the containment forest (C05, bounded there). "
+        "Processors and user __init__ are External, assumed not to put the under-construction marker on a model. "
+        "Match-rule processors during construction: terminal branch of process_node (contracts/c20.py); process_match "
+        "is not under contract.",
+        "DESIGN.md 5/C13, 11.8", "bounded battery with the real loader"),
+    "C14": (
+        "Proved: the instrumentation of user classes as a counted, reversible operation - "
+        "_replace_user_attr_methods_for_class saves each own __setattr__/__delattr__/__getattribute__ (or None) and sets "
+        "the count to 1; per class _replace_user_attr_methods raises the count by one and instruments only at count 0; "
+        "per class _restore_user_attr_methods lowers the count, and at the last load removes the marker and puts back "
+        "exactly the saved slots (deletes a slot that did not exist), an un-instrumented class is untouched (29 paths); "
+        "get_model_from_str instruments once after parsing and restores on every failing path on which it had "
+        "instrumented (balance); _end_model_construction removes the marker and switches the instrumentation off "
+        "BEFORE any user __init__; per user object: __init__ is called exactly once with exactly the collected "
+        "attributes that belong to the rule (plus parent), and its per-object storage entry is removed first; object "
+        "processors start only after every model of the load has ended construction (main-model phase). "
+        "THREE KNOWN FINDINGS (genuine defects, recorded not repaired, found by the bounded battery of real loads): "
+        "after a failing load the classes keep per-object storage (unknown reference; __init__ raising on the second of "
+        "three objects) and after a failing multi-file load the classes stay instrumented.",
+        "Known findings are listed in known_findings.json (status open) and described in DESIGN.md 11.8; the repair "
+        "needs restore to become idempotent per parser and the failure handlers to abort imported parsers - not a small "
+        "patch. The data invariant of _user_class_inst (every element has a storage entry) is a precondition of the "
+        "per-object unit (assumed). User __init__ is External.",
+        "DESIGN.md 5/C14, 11.8", "bounded battery of successful and failing loads with user classes"),
+    "C15": (
+        "Proved: the roots through which textX could keep a failed load alive, each with its clean-up contract - "
+        "(1) model repositories: the whole chain of C18 (every failing exit of parse_tree_to_objgraph / the main-model "
+        "phase / a failing model processor removes exactly the models of this load); (2) user classes: "
+        "get_model_from_str restores the instrumentation on every failing path on which it was switched on and raises "
+        "the original error; _restore_user_attr_methods puts back exactly the saved attribute methods at the last load; "
+        "the per-object storage entry of an object is removed before its __init__ runs, also when that __init__ fails. "
+        "THREE KNOWN FINDINGS (genuine defects, recorded not repaired): per-object storage survives a load that fails "
+        "before / inside _end_model_construction (two scenarios) and a failing multi-file load leaves the user classes "
+        "instrumented.",
+        "GC reachability itself is not modelled: the obligations are about the long-lived roots textX has (class "
+        "attributes of user classes, repositories); parser clones and resolvers are per load (C16). 'Same result as a "
+        "fresh metamodel afterwards' is checked only by the bounded battery.",
+        "DESIGN.md 5/C15, 11.8", "bounded battery of failing loads with user classes"),
     "C05": (
         "Proved: get_model returns the root (loop invariant root_of(p) == root_of(obj), variant depth) and the root has "
         "no parent; get_parent_of_type returns the nearest ancestor whose class name is the given type. The traversal "
